@@ -300,6 +300,8 @@ theorem sem_layerLoop (o : Opts) (dest : Str) : ∀ (es : List Entry) (st : LSta
   | e :: es, st0, ht0 => by
     have ht1 : TmpOK dest { st0 with size := st0.size + e.size } := ht0
     simp only [layerLoop]
+    split
+    · exact sem_layerLoop o dest es _ ht1
     refine StrictSem.bindQ o dest _ _ (sem_stage o dest e _ (clean e.name) ht1) (stage_tmp o dest e _ (clean e.name) ht1) ?_ ?_
     · rintro stR ⟨out, rfl, hout⟩
       exact finish_fails dest _ out hout
